@@ -10,7 +10,7 @@ for f in sys.argv[2:]:
 head = os.popen("git -C /repo log --format=%h -1").read().strip()
 for sid in sorted(os.listdir(os.path.join(root, "seeded"))):
     d = os.path.join(root, "seeded", sid)
-    if not os.path.isdir(d):
+    if not os.path.isdir(d) or not os.path.exists(os.path.join(d, "agent-meta.json")):
         continue
     am = json.load(open(os.path.join(d, "agent-meta.json")))
     mine = [l for l in confirm if l.startswith(sid + ":")]
